@@ -312,6 +312,16 @@ func (e *ex) Do(op string) core.Result {
 		up, _ := core.Unhex(t[2])
 		req, _ := http.NewRequest("GET", "http://example.com/", nil)
 		req.URL = &url.URL{Scheme: "http", Host: "example.com", Path: string(up)}
+		if len(t) > 3 {
+			// the request exactly as net/http parses the client's request line (RawPath and all)
+			target, _ := core.Unhex(t[3])
+			if pr, err := http.ReadRequest(bufioReader("GET " + string(target) + " HTTP/1.1\r\nHost: example.com\r\n\r\n")); err == nil {
+				if pr.URL.Path != string(up) {
+					return core.Result{Impl: "bad-op", Fail: "harness: decoded path of the raw target differs from the op's path", Sig: "harness"}
+				}
+				req = pr
+			}
+		}
 		res := proxyutil.NewResponse(200, strings.NewReader("original"), req)
 		m := static.NewModifier(filepath.Join(e.fx.tmp, string(rootSym)))
 		err := m.ModifyResponse(res)
@@ -537,12 +547,17 @@ func (P) Gen(r *core.Rand, tier string, emit func([]string)) {
 		var ops []string
 		root := r.Pick("/T/root", "/T/root/", "/T/root/sub", "/T/root/sub/..", "/T/./root//", "/T/root/sub/deep")
 		for j := 0; j < 12; j++ {
-			p, ok := urlPathOf(genTarget(r))
+			tg := genTarget(r)
+			p, ok := urlPathOf(tg)
 			if !ok {
 				core.Count("path:rejected-by-ReadRequest")
 				continue
 			}
-			ops = append(ops, "path "+core.HexS(root)+" "+core.HexS(p))
+			op := "path " + core.HexS(root) + " " + core.HexS(p)
+			if tg != "" {
+				op += " " + core.HexS(tg) // the raw request target, so that the request is built as net/http builds it
+			}
+			ops = append(ops, op)
 		}
 		if len(ops) > 0 {
 			emit(ops)
